@@ -1,4 +1,139 @@
-import JSight.Model.Descr
 import JSight.Model.Location
+import JSight.Proofs.C02
+/-!
+C02 (and the fault-freedom half of C01): error locations — `LineBeginning`, `LineNumber`, `LineEnd`,
+`quote`, `NewLocation` of `jerr/utils.go` / `jerr/location.go`.  Core Lean only.
+-/
 namespace JSight.C02
+open JSight
+
+/-- the computed line beginning is just after the nearest line end strictly before the position
+    (a line-end byte AT the position does not count), or 0; there is no line end between it and the position -/
+theorem lineBeginning_spec (content : Bytes) (pos : Nat) (nl : UInt8) (h : content ≠ []) :
+    (lineBeginning content pos nl = 0 ∨
+      (byteAt content (lineBeginning content pos nl - 1) = nl ∧ lineBeginning content pos nl - 1 ≠ pos)) ∧
+    (∀ k, lineBeginning content pos nl ≤ k → k ≤ min pos (content.length - 1) → k ≠ pos → byteAt content k ≠ nl) := by
+  refine ⟨lineBeginning_prev content pos nl, ?_⟩
+  rw [lineBeginning_eq content pos nl h]
+  exact lbLoop_no_nl content pos nl _
+
+theorem lineBeginning_le (content : Bytes) (pos : Nat) (nl : UInt8) (h : content ≠ []) :
+    lineBeginning content pos nl ≤ min pos (content.length - 1) + 1 := by
+  rw [lineBeginning_eq content pos nl h]
+  exact lbLoop_le content pos nl _
+
+/-- the line number is 1 + the number of line ends up to the (clamped) position, not counting one at the position -/
+theorem lineNumber_spec (content : Bytes) (pos : Nat) (nl : UInt8) (h : content ≠ []) :
+    lineNumber content pos nl =
+      1 + ((List.range (min pos (content.length - 1) + 1)).filter
+            (fun k => byteAt content k == nl && k != pos)).length := by
+  rw [lineNumber_eq content pos nl h, lnLoop_eq, Nat.add_comm]
+
+/-- line number and line beginning agree: the number of the line is 1 + the number of line ends before its beginning -/
+theorem line_matches_beginning (content : Bytes) (pos : Nat) (nl : UInt8) (h : content ≠ []) :
+    lineNumber content pos nl =
+      1 + ((List.range (lineBeginning content pos nl)).filter
+            (fun k => byteAt content k == nl && k != pos)).length := by
+  rw [lineNumber_eq content pos nl h, lineBeginning_eq content pos nl h, lnLoop_eq_lb, Nat.add_comm]
+
+/-- the end of the line lies inside the content and there is no line end between the position and it -/
+theorem lineEnd_spec (content : Bytes) (pos : Nat) (nl : UInt8) :
+    lineEnd content pos nl ≤ content.length ∧
+    (∀ k, min pos content.length ≤ k → k < lineEnd content pos nl → byteAt content k ≠ nl) := by
+  have h1 := lineEnd_le_scanOf content pos nl
+  have h2 := scanOf_le content pos nl
+  refine ⟨Nat.le_trans h1 h2, ?_⟩
+  intro k hk1 hk2
+  exact scan_no_nl content nl _ _ k hk1 (Nat.lt_of_lt_of_le hk2 h1)
+
+/-- the quoted slice never has end < begin: no slice-bounds fault -/
+theorem lineBeginning_le_lineEnd (content : Bytes) (pos : Nat) (nl : UInt8) :
+    lineBeginning content pos nl ≤ lineEnd content pos nl := by
+  have hlb := lineBeginning_le_clamp content pos nl
+  have hge := scanOf_ge content pos nl
+  rcases lineEnd_cases content pos nl with he | ⟨hpos, he, hne⟩
+  · rw [he]; exact Nat.le_trans hlb hge
+  · rw [he]
+    rcases lineBeginning_prev content pos nl with h0 | ⟨hb, _⟩
+    · rw [h0]; exact Nat.zero_le _
+    · -- the line beginning sits just after an `nl` byte, the scan result just after a non-`nl` byte
+      have hneq : lineBeginning content pos nl ≠ scanOf content pos nl := by
+        intro e
+        rw [e] at hb
+        exact hne hb
+      omega
+
+/-- C01/C02: computing a location never faults, for every content (including empty) and every index -/
+theorem location_total (content : Bytes) (i : Nat) : (newLocation content i).isSome := by
+  have h := lineBeginning_le_lineEnd content i (detectNL content)
+  have hq : ∃ q, quoteAt content i (lineBeginning content i (detectNL content)) (detectNL content) = some q := by
+    unfold quoteAt
+    simp only []
+    rw [if_neg (Nat.not_lt.2 h)]
+    split
+    · exact ⟨_, rfl⟩
+    · exact ⟨_, rfl⟩
+  obtain ⟨q, hq⟩ := hq
+  unfold newLocation
+  simp only []
+  rw [hq]
+  rfl
+
+/-! ### additional facts -/
+
+/-- sharper than `lineBeginning_le`: the line beginning never exceeds the (clamped) position itself -/
+theorem lineBeginning_le_pos (content : Bytes) (pos : Nat) (nl : UInt8) :
+    lineBeginning content pos nl ≤ min pos content.length :=
+  lineBeginning_le_clamp content pos nl
+
+/-- the position (clamped to the content) is inside the raw scanned line `[lineBeginning, scan]`; `lineEnd`
+    is that scan result or one less -/
+theorem lineEnd_ge (content : Bytes) (pos : Nat) (nl : UInt8) :
+    min pos content.length ≤ lineEnd content pos nl + 1 := by
+  have hge := scanOf_ge content pos nl
+  rcases lineEnd_cases content pos nl with he | ⟨_, he, _⟩ <;> omega
+
+/-- `lineEnd` stops at the end of the content or on a line end (possibly one byte earlier, on the `\r` of `\r\n`
+    resp. the `\n` of `\n\r`) -/
+theorem lineEnd_stop (content : Bytes) (pos : Nat) (nl : UInt8) :
+    lineEnd content pos nl = content.length ∨ lineEnd content pos nl + 1 = content.length ∨
+      byteAt content (lineEnd content pos nl) = nl ∨ byteAt content (lineEnd content pos nl + 1) = nl := by
+  have hle := scanOf_le content pos nl
+  have hstop := scan_stop content nl (content.length - min pos content.length + 1)
+    (min pos content.length) (Nat.le_refl _)
+  change content.length ≤ scanOf content pos nl ∨ byteAt content (scanOf content pos nl) = nl at hstop
+  rcases lineEnd_cases content pos nl with he | ⟨hp, he, _⟩
+  · rw [he]
+    rcases hstop with h | h
+    · exact Or.inl (by omega)
+    · exact Or.inr (Or.inr (Or.inl h))
+  · have e : lineEnd content pos nl + 1 = scanOf content pos nl := by omega
+    rw [e]
+    rcases hstop with h | h
+    · exact Or.inr (Or.inl (by omega))
+    · exact Or.inr (Or.inr (Or.inr h))
+
+/-! ### non-vacuity checks -/
+
+-- "ab\ncd"
+example : lineBeginning [97, 98, 10, 99, 100] 3 10 = 3 := by decide
+example : lineNumber [97, 98, 10, 99, 100] 3 10 = 2 := by decide
+example : lineEnd [97, 98, 10, 99, 100] 3 10 = 5 := by decide
+example : newLocation [97, 98, 10, 99, 100] 3 = some ⟨2, [99, 100]⟩ := by decide
+-- error position on the line end itself: it belongs to the line it terminates
+example : lineBeginning [97, 98, 10, 99, 100] 2 10 = 0 := by decide
+example : lineNumber [97, 98, 10, 99, 100] 2 10 = 1 := by decide
+example : newLocation [97, 98, 10, 99, 100] 2 = some ⟨1, [97, 98]⟩ := by decide
+-- index past the end, empty content
+example : newLocation [97, 98, 10, 99, 100] 1000 = some ⟨2, [99, 100]⟩ := by decide
+example : newLocation [] 7 = some ⟨1, []⟩ := by decide
+-- CRLF: "ab\r\ncd\r\nef"
+example : detectNL [97, 98, 13, 10, 99, 100, 13, 10, 101, 102] = 10 := by decide
+example : lineEnd [97, 98, 13, 10, 99, 100, 13, 10, 101, 102] 4 10 = 6 := by decide
+example : newLocation [97, 98, 13, 10, 99, 100, 13, 10, 101, 102] 5 = some ⟨2, [99, 100]⟩ := by decide
+-- CRLF, error position on the `\n` of an empty line "a\r\n\r\nb": lineEnd steps back onto lineBeginning
+example : lineBeginning [97, 13, 10, 13, 10, 98] 3 10 = 3 := by decide
+example : lineEnd [97, 13, 10, 13, 10, 98] 3 10 = 3 := by decide
+example : newLocation [97, 13, 10, 13, 10, 98] 3 = some ⟨2, []⟩ := by decide
+
 end JSight.C02
